@@ -432,6 +432,7 @@ hashtable_iter_next(qb_map_iter_t * it, void **value)
 		hashtable_node_deref(hi->i.m, hi->node);
 	}
 	if (!found) {
+		hi->node = NULL;
 		return NULL;
 	}
 	hi->node = hash_node;
@@ -441,6 +442,12 @@ hashtable_iter_next(qb_map_iter_t * it, void **value)
 static void
 hashtable_iter_free(qb_map_iter_t * i)
 {
+	struct hashtable_iter *hi = (struct hashtable_iter *)i;
+
+	/* an abandoned iteration still holds a reference on its node */
+	if (hi->node) {
+		hashtable_node_deref(hi->i.m, hi->node);
+	}
 	free(i);
 }
 
